@@ -33,6 +33,121 @@ def _index(stmts, text, what):
     return hits[0]
 
 
+# ------------------------------------------------------------------ normalisation of small decision functions
+# A function whose body is straight-line assignments of pure expressions to locals, log calls, and
+# if / return / raise is turned into a decision tree over canonical expressions:
+#   * docstrings, logger.* calls and the arguments of raised exceptions are dropped;
+#   * locals bound to pure expressions are substituted into their uses (so renaming a local, naming an
+#     expression once, or inlining a temporary make no difference);
+#   * `if c: A` followed by `rest` == `if c: A else: rest` when A ends in return / raise, `not c` and
+#     `is not` swap the branches, constant tests are pruned.
+# Everything else fails closed.
+PURE_CALLS = ('getattr', 'isinstance', 'issubclass')
+
+
+def _pure(n):
+    for x in ast.walk(n):
+        if isinstance(x, ast.Call):
+            f = _u(x.func)
+            if not (f in PURE_CALLS or f.endswith('.get') or f == 'self.get_cls_attrs'):
+                return False
+        elif isinstance(x, (ast.Lambda, ast.ListComp, ast.DictComp, ast.SetComp, ast.GeneratorExp, ast.Await, ast.Yield,
+                            ast.YieldFrom, ast.NamedExpr)):
+            return False
+    return True
+
+
+class _Subst(ast.NodeTransformer):
+    def __init__(self, env):
+        self.env = env
+
+    def visit_Name(self, n):
+        if isinstance(n.ctx, ast.Load) and n.id in self.env:
+            import copy
+            return copy.deepcopy(self.env[n.id])
+        return n
+
+
+def _sub(expr, env):
+    import copy
+    return ast.fix_missing_locations(_Subst(env).visit(copy.deepcopy(expr)))
+
+
+def _tree(stmts, env, what):
+    """-> ('ret', text) | ('raise', exception name) | ('if', test AST, then, else)"""
+    if not stmts:
+        raise TranslateError('%s: a path falls off the end of the function' % what)
+    s, rest = stmts[0], stmts[1:]
+    if isinstance(s, ast.Expr):
+        if isinstance(s.value, ast.Constant) or (isinstance(s.value, ast.Call) and _u(s.value.func).startswith('logger.')):
+            return _tree(rest, env, what)
+        raise TranslateError('%s: unrecognised statement %r' % (what, _u(s)))
+    if isinstance(s, ast.Assign) and len(s.targets) == 1 and isinstance(s.targets[0], ast.Name):
+        rhs = _sub(s.value, env)
+        if not _pure(rhs):
+            raise TranslateError('%s: a local is bound to an expression with effects: %r' % (what, _u(s)))
+        env = dict(env)
+        env[s.targets[0].id] = rhs
+        return _tree(rest, env, what)
+    if isinstance(s, ast.Return):
+        return ('ret', _u(_sub(s.value, env)) if s.value is not None else 'None')
+    if isinstance(s, ast.Raise):
+        exc = s.exc.func if isinstance(s.exc, ast.Call) else s.exc
+        return ('raise', _u(exc))
+    if isinstance(s, ast.If):
+        falls = lambda body: not (body and isinstance(body[-1], (ast.Return, ast.Raise)))
+        for body in (s.body, s.orelse):
+            if falls(body) and any(isinstance(x, ast.Assign) for x in body):
+                raise TranslateError('%s: a branch binds locals and falls through' % what)
+        test = _sub(s.test, env)
+        return _if(test, _tree(list(s.body) + rest, env, what), _tree(list(s.orelse) + rest, env, what))
+    raise TranslateError('%s: unrecognised statement %r' % (what, _u(s)))
+
+
+def _if(test, a, b):
+    if isinstance(test, ast.UnaryOp) and isinstance(test.op, ast.Not):
+        return _if(test.operand, b, a)
+    if isinstance(test, ast.Compare) and len(test.ops) == 1 and isinstance(test.ops[0], ast.IsNot):
+        return _if(ast.Compare(left=test.left, ops=[ast.Is()], comparators=test.comparators), b, a)
+    if isinstance(test, ast.Constant) and test.value in (True, False):
+        return a if test.value else b
+    if a == b:
+        return a
+    return ('if', test, a, b)
+
+
+def _btext(n, atoms, what):
+    """boolean expression -> Gallina over the named atoms"""
+    t = _u(n)
+    if t in atoms:
+        return atoms[t]
+    if isinstance(n, ast.BoolOp):
+        op = ' && ' if isinstance(n.op, ast.And) else ' || '
+        return '(' + op.join(_btext(v, atoms, what) for v in n.values) + ')'
+    if isinstance(n, ast.UnaryOp) and isinstance(n.op, ast.Not):
+        return '(negb %s)' % _btext(n.operand, atoms, what)
+    if isinstance(n, ast.Compare) and len(n.ops) == 1 and isinstance(n.ops[0], (ast.NotEq, ast.IsNot)):
+        pos = ast.Compare(left=n.left, ops=[ast.Eq() if isinstance(n.ops[0], ast.NotEq) else ast.Is()], comparators=n.comparators)
+        if _u(pos) in atoms:
+            return '(negb %s)' % atoms[_u(pos)]
+    raise TranslateError('%s: unrecognised condition %r' % (what, t))
+
+
+def _gallina(tree, atoms, rets, what):
+    if tree[0] == 'if':
+        return '(if %s then %s else %s)' % (_btext(tree[1], atoms, what), _gallina(tree[2], atoms, rets, what),
+                                            _gallina(tree[3], atoms, rets, what))
+    key = (tree[0], tree[1])
+    if key not in rets:
+        raise TranslateError('%s: unrecognised outcome %r' % (what, key))
+    return rets[key]
+
+
+def _decision(fn, what):
+    return _tree(_stmts(fn), {}, what)
+
+
+
 def flat_parent_first(repo):
     fn = find_function(_parse(repo, 'spyne/model/complex.py'), ['_get_flat_type_info'])
     st = _stmts(fn)
@@ -62,41 +177,62 @@ def xml_parent_first(repo):
     return rec[0] < loop[0]
 
 
-def gpt(repo):
+GPT_ATOMS = {
+    'self.polymorphic': 'poly',
+    'inst.__class__ is (cls.__orig__ or cls)': 'same_cls',
+    '(cls.__orig__ or cls) is inst.__class__': 'same_cls',
+    'isinstance(inst, cls.__orig__ or cls)': 'is_inst',
+    'self.get_cls_attrs(cls).polymap.get(inst.__class__, None) is None': 'map_none',
+    'self.get_cls_attrs(cls).polymap.get(inst.__class__) is None': 'map_none',
+}
+GPT_RETS = {
+    ('ret', '(cls, False)'): 'GDecl',
+    ('ret', '(inst.__class__, True)'): 'GInst',
+    ('ret', '(self.get_cls_attrs(cls).polymap.get(inst.__class__, None), True)'): 'GMap',
+    ('ret', '(self.get_cls_attrs(cls).polymap.get(inst.__class__), True)'): 'GMap',
+}
+
+
+def gpt_term(repo):
+    """get_polymorphic_target as a decision over (polymorphic, same class as the declared one's origin,
+    instance of it, no polymap entry), after normalisation"""
     fn = find_function(_parse(repo, 'spyne/protocol/_base.py'), ['ProtocolMixin', 'get_polymorphic_target'])
-    st = _stmts(fn)
-    orig = same = isinst = False
-    seen_np = False
-    tail = []
-    for s in st:
-        t = _u(s)
-        if isinstance(s, ast.If) and _u(s.test) == 'not self.polymorphic':
-            if _u(s.body[-1]) != 'return (cls, False)' or s.orelse:
-                raise TranslateError('get_polymorphic_target: unexpected non-polymorphic branch')
-            seen_np = True
-        elif t == 'orig_cls = cls.__orig__ or cls':
-            orig = True
-        elif isinstance(s, ast.Assign) and _u(s.targets[0]) == 'orig_cls':
-            if t != 'orig_cls = cls':
-                raise TranslateError('get_polymorphic_target: unrecognised orig_cls: %s' % t)
-        elif isinstance(s, ast.If) and _u(s.test) == 'inst.__class__ is orig_cls':
-            if _u(s.body[-1]) != 'return (cls, False)' or s.orelse:
-                raise TranslateError('get_polymorphic_target: unexpected same-class branch')
-            same = True
-        elif isinstance(s, ast.If) and _u(s.test) == 'not isinstance(inst, orig_cls)':
-            if _u(s.body[-1]) != 'return (cls, False)' or s.orelse:
-                raise TranslateError('get_polymorphic_target: unexpected not-a-subclass branch')
-            isinst = True
-        else:
-            tail.append(t)
-    want_tail = ['cls_attr = self.get_cls_attrs(cls)', 'polymap_cls = cls_attr.polymap.get(inst.__class__, None)']
-    if not seen_np or tail[:2] != want_tail or len(tail) != 3:
-        raise TranslateError('get_polymorphic_target: unrecognised statements %r' % (tail,))
-    last = st[-1]
-    if not (isinstance(last, ast.If) and _u(last.test) == 'polymap_cls is not None'
-            and _u(last.body[-1]) == 'return (polymap_cls, True)' and _u(last.orelse[-1]) == 'return (inst.__class__, True)'):
-        raise TranslateError('get_polymorphic_target: unrecognised final branch')
-    return orig, same, isinst
+    if [a.arg for a in fn.args.args] != ['self', 'cls', 'inst']:
+        raise TranslateError('get_polymorphic_target: unrecognised signature')
+    return _gallina(_decision(fn, 'get_polymorphic_target'), GPT_ATOMS, GPT_RETS, 'get_polymorphic_target')
+
+
+def _evalb(n, atoms, env, what):
+    t = _u(n)
+    if t in atoms:
+        a = atoms[t]
+        return (not env[a[6:-1]]) if a.startswith('(negb ') else env[a]
+    if isinstance(n, ast.BoolOp):
+        vs = [_evalb(v, atoms, env, what) for v in n.values]
+        return all(vs) if isinstance(n.op, ast.And) else any(vs)
+    if isinstance(n, ast.UnaryOp) and isinstance(n.op, ast.Not):
+        return not _evalb(n.operand, atoms, env, what)
+    raise TranslateError('%s: unrecognised condition %r' % (what, t))
+
+
+def _eval_tree(tree, atoms, rets, env, what):
+    while tree[0] == 'if':
+        tree = tree[2] if _evalb(tree[1], atoms, env, what) else tree[3]
+    return rets[(tree[0], tree[1])]
+
+
+def gpt(repo):
+    """the three recorded facts, read off the decision function: the comparison class is the origin of the
+    declared class (the atoms only exist in that form), an instance of exactly that class is not retyped,
+    an instance of an unrelated class is not retyped"""
+    gpt_term(repo)                  # fails closed on anything unrecognised
+    fn = find_function(_parse(repo, 'spyne/protocol/_base.py'), ['ProtocolMixin', 'get_polymorphic_target'])
+    tree = _decision(fn, 'get_polymorphic_target')
+    ev = lambda **env: _eval_tree(tree, GPT_ATOMS, GPT_RETS, env, 'get_polymorphic_target')
+    tf = (True, False)
+    same = all(ev(poly=True, same_cls=True, is_inst=i, map_none=m) == 'GDecl' for i in tf for m in tf)
+    isinst = all(ev(poly=True, same_cls=False, is_inst=False, map_none=m) == 'GDecl' for m in tf)
+    return True, same, isinst
 
 
 def sub_same_ns(repo):
@@ -167,75 +303,84 @@ def type_keep(repo):
     return True
 
 
+def _xsi_block(cls_node, fn):
+    """the statements executed when the element carries an xsi:type, with the final value bound to `cls`:
+    the body of `if xsi_type is not None:` in from_element, or -- when that body only hands over to a
+    private method of the same class -- the body of that method with `return E` read as `cls = E`"""
+    blocks = [n for n in ast.walk(fn) if isinstance(n, ast.If) and _u(n.test) == 'xsi_type is not None']
+    if len(blocks) != 1:
+        raise TranslateError('from_element: no xsi:type handling found')
+    body = [s for s in blocks[0].body if not (isinstance(s, ast.Expr) and isinstance(s.value, ast.Call)
+                                              and _u(s.value.func).startswith('logger.'))]
+    if len(body) == 1 and isinstance(body[0], ast.Assign) and _u(body[0].targets[0]) == 'cls' \
+            and isinstance(body[0].value, ast.Call) and _u(body[0].value.func).startswith('self._') \
+            and _u(body[0].value.func) != 'self._get_xsi_target':
+        call = body[0].value
+        name = _u(call.func)[5:]
+        helpers = [m for m in cls_node.body if isinstance(m, ast.FunctionDef) and m.name == name]
+        if len(helpers) != 1:
+            raise TranslateError('from_element: helper %s not found in the class' % name)
+        h = helpers[0]
+        params = [a.arg for a in h.args.args]
+        args = [_u(a) for a in call.args]
+        if call.keywords or h.decorator_list or params[:1] != ['self'] or params[1:] != args or \
+                not set(args) <= {'ctx', 'cls', 'element', 'xsi_type'}:
+            raise TranslateError('from_element: helper %s is not called with the locals it names' % name)
+        hb = _stmts(h)
+        rets = [n for n in ast.walk(h) if isinstance(n, ast.Return)]
+        if len(rets) != 1 or rets[0] is not hb[-1] or rets[0].value is None:
+            raise TranslateError('from_element: helper %s does not end in its only return' % name)
+        last = ast.Assign(targets=[ast.Name(id='cls', ctx=ast.Store())], value=rets[0].value)
+        ast.fix_missing_locations(last)
+        return hb[:-1] + [last], _u(fn) + '\n' + _u(h)
+    return list(blocks[0].body), _u(fn)
+
+
 def xsi_guard(repo):
     """does from_element hand the decision about the registered class to _get_xsi_target?"""
-    fn = find_function(_parse(repo, 'spyne/protocol/xml.py'), ['XmlDocument', 'from_element'])
-    src = _u(fn)
+    tree = _parse(repo, 'spyne/protocol/xml.py')
+    cls_node = [n for n in tree.body if isinstance(n, ast.ClassDef) and n.name == 'XmlDocument'][0]
+    fn = find_function(tree, ['XmlDocument', 'from_element'])
+    block, src = _xsi_block(cls_node, fn)
     for must in ("xsi_type = element.get(XSI_TYPE, None)", "ns = element.nsmap.get(prefix)",
                  "classkey = '{%s}%s' % (ns, objtype)", "newclass = ctx.app.interface.classes.get(classkey, None)",
                  "prefix, objtype = xsi_type.split(':', 1)", "prefix, objtype = (None, xsi_type)"):
         if must not in src:
             raise TranslateError('from_element: missing %r' % must)
-    for n in ast.walk(fn):
-        if isinstance(n, ast.If) and _u(n.test) == 'xsi_type is not None':
-            for s in n.body:
-                if isinstance(s, ast.If) and _u(s.test) == 'ns is not None':
-                    if [_u(x) for x in s.body] != ["classkey = '{%s}%s' % (ns, objtype)"] or \
-                                                    _u(s.orelse[-1]) != 'raise ValidationError(xsi_type)':
-                        raise TranslateError('from_element: unrecognised prefix lookup')
-                if isinstance(s, ast.If) and _u(s.test) == 'newclass is None':
-                    if _u(s.body[-1]) != 'raise ValidationError(xsi_type)' or s.orelse:
-                        raise TranslateError('from_element: an unknown class key is not refused')
-            texts = [(_u(s.test) if isinstance(s, ast.If) else _u(s)) for s in n.body]
-            core = [t for t in texts if not t.startswith('logger.')]
-            base = ["':' in xsi_type", 'ns = element.nsmap.get(prefix)', 'ns is not None',
-                    'newclass = ctx.app.interface.classes.get(classkey, None)', 'newclass is None']
-            if core == base + ['cls = newclass']:
-                return False
-            if core == base + ['cls = self._get_xsi_target(cls, newclass, xsi_type)']:
-                return True
-            raise TranslateError('from_element: unrecognised xsi:type handling %r' % (core,))
-    raise TranslateError('from_element: no xsi:type handling found')
+    if "if self.parse_xsi_type:" not in src:
+        raise TranslateError('from_element: parse_xsi_type is not consulted')
+    for s in block:
+        if isinstance(s, ast.If) and _u(s.test) == 'ns is not None':
+            if [_u(x) for x in s.body] != ["classkey = '{%s}%s' % (ns, objtype)"] or \
+                                            _u(s.orelse[-1]) != 'raise ValidationError(xsi_type)':
+                raise TranslateError('from_element: unrecognised prefix lookup')
+        if isinstance(s, ast.If) and _u(s.test) == 'newclass is None':
+            if _u(s.body[-1]) != 'raise ValidationError(xsi_type)' or s.orelse:
+                raise TranslateError('from_element: an unknown class key is not refused')
+    texts = [(_u(s.test) if isinstance(s, ast.If) else _u(s)) for s in block]
+    core = [t for t in texts if not t.startswith('logger.')]
+    base = ["':' in xsi_type", 'ns = element.nsmap.get(prefix)', 'ns is not None',
+            'newclass = ctx.app.interface.classes.get(classkey, None)', 'newclass is None']
+    if core == base + ['cls = newclass']:
+        return False
+    if core == base + ['cls = self._get_xsi_target(cls, newclass, xsi_type)']:
+        return True
+    raise TranslateError('from_element: unrecognised xsi:type handling %r' % (core,))
 
 
+_SUP = "getattr(cls, '__orig__', None) or cls"
+_SUB = "getattr(newclass, '__orig__', None) or newclass"
+_KEYS = '(newclass.get_namespace(), newclass.get_type_name()) %s (cls.get_namespace(), cls.get_type_name())'
 XSI_ATOMS = {
-    'sub is sup': 'same_orig',
-    'issubclass(sup, Array)': 'sup_array',
-    '(newclass.get_namespace(), newclass.get_type_name()) != (cls.get_namespace(), cls.get_type_name())': '(negb same_key)',
-    '(newclass.get_namespace(), newclass.get_type_name()) == (cls.get_namespace(), cls.get_type_name())': 'same_key',
-    'issubclass(sup, ComplexModelBase)': 'sup_complex',
-    'issubclass(sub, sup)': 'sub_of',
+    '(%s) is (%s)' % (_SUB, _SUP): 'same_orig',
+    '(%s) is (%s)' % (_SUP, _SUB): 'same_orig',
+    'issubclass(%s, Array)' % _SUP: 'sup_array',
+    _KEYS % '==': 'same_key',
+    _KEYS % '!=': '(negb same_key)',
+    'issubclass(%s, ComplexModelBase)' % _SUP: 'sup_complex',
+    'issubclass(%s, %s)' % (_SUB, _SUP): 'sub_of',
 }
-
-
-def _bexpr(n):
-    t = _u(n)
-    if t in XSI_ATOMS:
-        return XSI_ATOMS[t]
-    if isinstance(n, ast.BoolOp):
-        op = ' && ' if isinstance(n.op, ast.And) else ' || '
-        return '(' + op.join(_bexpr(v) for v in n.values) + ')'
-    if isinstance(n, ast.UnaryOp) and isinstance(n.op, ast.Not):
-        return '(negb %s)' % _bexpr(n.operand)
-    raise TranslateError('_get_xsi_target: unrecognised condition %r' % t)
-
-
-def _block(stmts):
-    """statements -> Gallina term of type option bool: None = ValidationError, Some false = the declared
-    class, Some true = the registered class named by the marker"""
-    if not stmts:
-        raise TranslateError('_get_xsi_target: a path falls off the end of the function')
-    s, rest = stmts[0], stmts[1:]
-    t = _u(s)
-    if t == 'return cls':
-        return '(Some false)'
-    if t == 'return newclass':
-        return '(Some true)'
-    if t == 'raise ValidationError(xsi_type)':
-        return 'None'
-    if isinstance(s, ast.If):
-        return '(if %s then %s else %s)' % (_bexpr(s.test), _block(list(s.body) + rest), _block(list(s.orelse) + rest))
-    raise TranslateError('_get_xsi_target: unrecognised statement %r' % t)
+XSI_RETS = {('ret', 'cls'): '(Some false)', ('ret', 'newclass'): '(Some true)', ('raise', 'ValidationError'): 'None'}
 
 
 def xsi_target(repo):
@@ -249,11 +394,7 @@ def xsi_target(repo):
     if [a.arg for a in fn.args.args] != ['cls', 'newclass', 'xsi_type'] or \
                                     [_u(d) for d in fn.decorator_list] != ['staticmethod']:
         raise TranslateError('_get_xsi_target: unrecognised signature')
-    st = _stmts(fn)
-    if [_u(x) for x in st[:2]] != ["sup = getattr(cls, '__orig__', None) or cls",
-                                   "sub = getattr(newclass, '__orig__', None) or newclass"]:
-        raise TranslateError('_get_xsi_target: sup / sub are not the __orig__ of the two classes')
-    return _block(st[2:])
+    return _gallina(_decision(fn, '_get_xsi_target'), XSI_ATOMS, XSI_RETS, '_get_xsi_target')
 
 
 def memberless_base(repo):
@@ -352,5 +493,8 @@ def generate(repo):
             '(** XmlDocument._get_xsi_target: None = ValidationError, Some false = the declared class,\n'
             '    Some true = the registered class the marker names *)\n'
             'Definition xsi_target_src (same_orig sup_array same_key sup_complex sub_of : bool) : option bool :=\n  %s.\n'
-            % (' '.join(b(v) for v in vals), xsi_target(repo)))
+            '(** ProtocolMixin.get_polymorphic_target after normalisation: GDecl = (cls, False), GInst = (inst.__class__, True),\n'
+            '    GMap = (the polymap entry, True) *)\n'
+            'Definition gpt_src (poly same_cls is_inst map_none : bool) : gpt_res :=\n  %s.\n'
+            % (' '.join(b(v) for v in vals), xsi_target(repo), gpt_term(repo)))
     return {'C16Shape.v': text}
